@@ -256,32 +256,47 @@ class Run:
         if not (isinstance(dst, tuple) and dst[0] == 'P' and isinstance(size, int)):
             raise Unsupported('`%s`' % pe(e))
         import re
+        mg = re.match(r'^((?:[^%]|%%)*)%([-+ 0#]*)(\d*)(?:\.(\d+))?(hh|h|ll|l|L)?([xXdiugGeEf])((?:[^%]|%%)*)$', text)
+        if mg and isinstance(v, (int, float)) and not isinstance(v, bool):
+            # one numeric conversion with a concrete argument: the text C produces (Python's % operator formats integers and
+            # floating point the same way for these conversions)
+            pre, post = mg.group(1).replace('%%', '%'), mg.group(7).replace('%%', '%')
+            flags, width, prec, lm, conv = mg.group(2), mg.group(3), mg.group(4), mg.group(5) or '', mg.group(6)
+            if conv in 'xXu':
+                if not isinstance(v, int):
+                    raise Unsupported('`%s`: integer conversion of a floating value' % pe(e))
+                v = v & ((1 << 64) - 1 if lm in ('ll', 'l') else 0xffffffff)
+            elif conv in 'di':
+                if not isinstance(v, int):
+                    raise Unsupported('`%s`: integer conversion of a floating value' % pe(e))
+            else:
+                v = float(v)
+            body = ('%' + flags + width + ('.' + prec if prec is not None else '') + ('d' if conv in 'diu' else conv)) % v
+            full = [ord(c) for c in pre + body + post]
+            out = full[:max(size - 1, 0)] + [0]
+            if size > 0:
+                for j, c in enumerate(out):
+                    self.store(('P', dst[1], dst[2] + j), c, e.get('l'))
+            return len(full)            # snprintf returns the length of the untruncated text
         m0 = re.match(r'^((?:[^%]|%%)*)%(0?)(\d*)([xXdiu])((?:[^%]|%%)*)$', text)
         if not m0:
             raise Unsupported('format "%s"' % text)
         pre, post = m0.group(1).replace('%%', '%'), m0.group(5).replace('%%', '%')
         m = re.match(r'^%(0?)(\d*)([xXdiu])$', text[len(m0.group(1)):len(text) - len(m0.group(5))])
         width = int(m.group(2) or 0)
-        if isinstance(v, int):
-            if m.group(3) in 'xX':
-                body = ('%x' if m.group(3) == 'x' else '%X') % (v & 0xffffffff)
-            else:
-                body = '%d' % v
-            body = body.rjust(width, '0' if m.group(1) else ' ')
-            out = [ord(c) for c in pre + body + post]
-        else:
-            # abstract value: only two-digit hexadecimal of a byte-sized value is modelled (digit = table[nibble])
-            import absim
-            if not (isinstance(v, absim.BV) and m.group(3) in 'xX' and width == 2 and m.group(1) and v.lo >= 0 and v.hi <= 255):
-                raise Unsupported('`%s` with an abstract argument' % pe(e))
-            tabv = self.HEXL if m.group(3) == 'x' else self.HEXU
-            out = [ord(c) for c in pre] + [absim.tab(tabv, (v >> 4) & 15), absim.tab(tabv, v & 15)] + [ord(c) for c in post]
+        # abstract value: only two-digit hexadecimal of a byte-sized value is modelled (digit = table[nibble])
+        import absim
+        if not (isinstance(v, absim.BV) and m.group(3) in 'xX' and width == 2 and m.group(1) and v.lo >= 0 and v.hi <= 255):
+            raise Unsupported('`%s` with an abstract argument' % pe(e))
+        tabv = self.HEXL if m.group(3) == 'x' else self.HEXU
+        out = [ord(c) for c in pre] + [absim.tab(tabv, (v >> 4) & 15), absim.tab(tabv, v & 15)] + [ord(c) for c in post]
+        full_len = len(out)
         out = out[:max(size - 1, 0)] + [0]
         if size <= 0:
-            return len(out) - 1
+            return full_len
         for j, c in enumerate(out):
             self.store(('P', dst[1], dst[2] + j), c, e.get('l'))
-        return len(out) - 1
+        return full_len
 
     def cstring(self, p, line):
         """the characters of the terminated string at pointer p (every element read is bounds-checked)"""
@@ -804,6 +819,14 @@ class Run:
                 raise Unsupported('`%s` on abstract bytes' % pe(e))
             u1, u2 = [x & 255 for x in u1], [x & 255 for x in u2]
             return (u1 > u2) - (u1 < u2)
+        if fn == 'strcpy' and not e.get('clsp') and len(e.get('a', [])) == 2:
+            dst, src = self.val(e['a'][0]), self.val(e['a'][1])
+            if not (isinstance(dst, tuple) and dst[0] == 'P' and isinstance(src, tuple) and src[0] == 'P'):
+                raise Unsupported('`%s`' % pe(e))
+            chars = self.cstring(src, e.get('l')) + [0]
+            for j, c in enumerate(chars):
+                self.store(('P', dst[1], dst[2] + j), c, e.get('l'))
+            return dst
         if fn in ('strcmp', 'strncmp') and not e.get('clsp'):
             a = [self.val(x) for x in e.get('a', [])]
             s1, s2 = self.cstring(a[0], e.get('l')), self.cstring(a[1], e.get('l'))
